@@ -12,6 +12,7 @@ import (
 	"time"
 
 	tcpip "github.com/brewlin/net-protocol/protocol"
+	"github.com/brewlin/net-protocol/stack"
 	"pgregory.net/rapid"
 	"verifharness/codec"
 	"verifharness/evid"
@@ -39,6 +40,7 @@ type Adv struct {
 	HoldAck bool `json:"hold_ack"` // acknowledge nothing new this time (pure window update)
 	DelayUs int  `json:"delay_us"` // wait before answering
 	Every   int  `json:"every"`    // answer after this many data segments (1..3)
+	Lose    bool `json:"lose"`     // pretend the segment(s) just received were lost: no ACK, not recorded (forces retransmission)
 	PMTU    int  `json:"pmtu"`     // >0: before answering, a router reports "packet too big" with this path MTU, quoting the segment just received
 }
 
@@ -59,8 +61,15 @@ type offer struct {
 	edge uint32 // ack + (wnd<<ws) relative to IRS+1 (mod 2^32)
 }
 
+var dbg bool
+
 func runSend(c SendCase) *evid.Failure {
 	env := rawpeer.NewEnv(c.Env)
+	if dbg {
+		env.Stack.AddTCPProbe(func(st stack.TCPEndpointState) {
+			fmt.Printf("probe: maxpayload=%d una=%d nxt=%d wnd=%d outstanding=%d cwnd=%d\n", st.Sender.MaxPayloadSize, st.Sender.SndUna, st.Sender.SndNxt, st.Sender.SndWnd, st.Sender.Outstanding, st.Sender.SndCwnd)
+		})
+	}
 	defer env.Close()
 	var s *netsim.Sock
 	var p *rawpeer.Peer
@@ -159,6 +168,7 @@ func runSend(c SendCase) *evid.Failure {
 	}
 	var pmtus []pmtuEv
 	pmtuBound := 0
+	losses := 0
 	step, segsSinceAck := 0, 0
 	windowBound, tiny, zero := 0, 0, 0
 	deadline := time.Now().Add(12 * time.Second)
@@ -191,6 +201,9 @@ func runSend(c SendCase) *evid.Failure {
 		}
 		off := k.Seq - (p.IRS + 1)
 		end := off + uint32(len(k.Payload))
+		if dbg {
+			fmt.Printf("data off=%d len=%d total=%d\n", off, len(k.Payload), fr.Pkt.IPTotal)
+		}
 		// --- oracle on every data segment
 		if fr.Pkt.IPTotal > c.Env.MTU {
 			return evid.Failf("send-over-mtu", "IP packet of %d bytes on a link with MTU %d", fr.Pkt.IPTotal, c.Env.MTU)
@@ -235,6 +248,17 @@ func runSend(c SendCase) *evid.Failure {
 		}
 		segsSinceAck = 0
 		step++
+		if adv.Lose && losses < 4 {
+			losses++
+			for i := off; i < end; i++ {
+				have[i] = false
+			}
+			if edgeRcv > off {
+				edgeRcv = off
+			}
+			evid.Label("send:segment-treated-as-lost")
+			continue
+		}
 		if adv.PMTU > 0 && adv.PMTU < fr.Pkt.IPTotal {
 			// ICMP "fragmentation needed" / ICMPv6 "packet too big" quoting the head of the segment just received
 			quote := fr.Raw
@@ -256,6 +280,9 @@ func runSend(c SendCase) *evid.Failure {
 				env.Tap.Inject(0x0800, codec.BuildIPv4(codec.IPv4Hdr{Src: router, Dst: []byte(env.StackAddr()), Proto: codec.ProtoICMP}, m))
 			}
 			pmtus = append(pmtus, pmtuEv{time.Now(), adv.PMTU})
+			if dbg {
+				fmt.Printf("PMTU report %d quoting off=%d len=%d total=%d\n", adv.PMTU, off, len(k.Payload), fr.Pkt.IPTotal)
+			}
 			// a router that reports "too big" has dropped the packet: treat it as not received
 			for i := off; i < end; i++ {
 				have[i] = false
@@ -373,6 +400,7 @@ func genSend(rt *rapid.T) SendCase {
 		a.HoldAck = rapid.IntRange(0, 7).Draw(rt, "hold") == 0
 		a.DelayUs = rapid.SampledFrom([]int{0, 0, 0, 100, 1000, 5000}).Draw(rt, "delay")
 		a.Every = rapid.IntRange(1, 3).Draw(rt, "every")
+		a.Lose = rapid.IntRange(0, 9).Draw(rt, "lose") == 0
 		if rapid.IntRange(0, 5).Draw(rt, "pmtu") == 0 {
 			lo := 576
 			if c.Env.V6 {
